@@ -165,8 +165,8 @@ def _single_return_expr(h):
 
 def _params(h, is_method):
     a = h.args
-    if a.vararg or a.kwarg or a.posonlyargs:
-        raise NotInlinable("*args / **kwargs / positional-only parameters")
+    if a.kwarg or a.posonlyargs:
+        raise NotInlinable("**kwargs / positional-only parameters")
     ps = [x.arg for x in a.args]
     defaults = dict(zip(ps[len(ps) - len(a.defaults):], a.defaults)) if a.defaults else {}
     for x, d in zip(a.kwonlyargs, a.kw_defaults):
@@ -193,8 +193,13 @@ def _bind(h, call, is_method, tag):
     ps, defaults = _params(h, is_method)
     if any(isinstance(a, ast.Starred) for a in call.args) or any(k.arg is None for k in call.keywords):
         raise NotInlinable("starred call")
-    if len(call.args) > len(ps):
-        raise NotInlinable("too many arguments")
+    npos = len([x for x in h.args.args]) - (1 if (is_method and "staticmethod" not in _decorators(h)) else 0)
+    extra = []
+    if len(call.args) > npos:
+        if h.args.vararg is None:
+            raise NotInlinable("too many arguments")
+        extra = list(call.args[npos:])
+        call = ast.Call(func=call.func, args=list(call.args[:npos]), keywords=call.keywords)
     given = {}
     for p, a in zip(ps, call.args):
         given[p] = a
@@ -213,6 +218,9 @@ def _bind(h, call, is_method, tag):
         if isinstance(x, ast.Name):
             uses[x.id] = uses.get(x.id, 0) + 1
     mapping, pre = {}, []
+    if h.args.vararg is not None:
+        # *rest: the extra positional arguments as a tuple (spliced again where the helper writes f(*rest, …))
+        mapping[h.args.vararg.arg] = ast.Tuple(elts=[clone(x) for x in extra], ctx=ast.Load())
     for p in ps:
         arg = given[p]
         if p in stored or not (_simple(arg) or uses.get(p, 0) <= 1 or isinstance(arg, ast.Lambda)):
@@ -233,11 +241,59 @@ def _bind(h, call, is_method, tag):
     return mapping, pre
 
 
+class _Simplify(ast.NodeTransformer):
+    """f(*(a, b), c) -> f(a, b, c);  getattr(x, "name") -> x.name  (what remains after parameters were substituted)"""
+    def visit_Call(self, node):
+        self.generic_visit(node)
+        if any(isinstance(a, ast.Starred) and isinstance(a.value, ast.Tuple) for a in node.args):
+            args = []
+            for a in node.args:
+                if isinstance(a, ast.Starred) and isinstance(a.value, ast.Tuple):
+                    args += a.value.elts
+                else:
+                    args.append(a)
+            node.args = args
+        if isinstance(node.func, ast.Name) and node.func.id == "getattr" and len(node.args) == 2 and not node.keywords \
+                and isinstance(node.args[1], ast.Constant) and isinstance(node.args[1].value, str) \
+                and node.args[1].value.isidentifier():
+            return ast.copy_location(ast.Attribute(value=node.args[0], attr=node.args[1].value, ctx=ast.Load()), node)
+        return node
+
+
 def _relocate(nodes, at):
+    """Inlined statements are positioned at the call they replace. Rules order statements by `lineno`, so the k-th
+    inlined statement gets line + k * step (a fraction: int(lineno) is still the real source line, used in reports);
+    statements nested in it continue the count, and a helper inlined inside an inlined helper uses a finer step."""
+    base = at.lineno
+    step = 1e-3 if float(base).is_integer() else 1e-6
+    k = [0]
+
+    def place(stmt):
+        k[0] += 1
+        ln = base + k[0] * step
+        for field, val in ast.iter_fields(stmt):
+            if isinstance(val, list):
+                for it in val:
+                    if isinstance(it, ast.stmt):
+                        place(it)
+                    elif isinstance(it, ast.AST):
+                        for x in ast.walk(it):
+                            x.lineno = x.end_lineno = ln
+                            x.col_offset, x.end_col_offset = at.col_offset, getattr(at, "end_col_offset", 0)
+            elif isinstance(val, ast.AST) and not isinstance(val, ast.stmt):
+                for x in ast.walk(val):
+                    x.lineno = x.end_lineno = ln
+                    x.col_offset, x.end_col_offset = at.col_offset, getattr(at, "end_col_offset", 0)
+        stmt.lineno = ln
+        stmt.end_lineno = max([ln] + [getattr(x, "end_lineno", ln) or ln for x in ast.walk(stmt)])
+        stmt.col_offset, stmt.end_col_offset = at.col_offset, getattr(at, "end_col_offset", 0)
     for b in nodes:
-        for x in ast.walk(b):
-            x.lineno, x.col_offset = at.lineno, at.col_offset
-            x.end_lineno, x.end_col_offset = getattr(at, "end_lineno", at.lineno), getattr(at, "end_col_offset", 0)
+        if isinstance(b, ast.stmt):
+            place(b)
+        else:
+            for x in ast.walk(b):
+                x.lineno, x.col_offset = at.lineno, at.col_offset
+                x.end_lineno, x.end_col_offset = getattr(at, "end_lineno", at.lineno), getattr(at, "end_col_offset", 0)
     return nodes
 
 
@@ -247,14 +303,41 @@ class Canonicaliser:
         self.done = set()          # ids of FunctionDefs already canonicalised
         self.busy = set()
         self.stats = {"statement_inlines": 0, "expression_inlines": 0, "helpers_dropped": 0, "not_inlinable": []}
+        self.inlined_into = {}     # helper name -> qualified names of the functions it was inlined into
         self.module_funcs = {}     # module name -> {fname: FunctionDef}
+        self.refcount = {}
         for m, (rel, tree, _) in pm.modules.items():
             self.module_funcs[m] = {f.name: f for f in tree.body if isinstance(f, ast.FunctionDef)}
+            for x in ast.walk(tree):
+                if isinstance(x, ast.Name):
+                    self.refcount[x.id] = self.refcount.get(x.id, 0) + 1
+                elif isinstance(x, ast.Attribute):
+                    self.refcount[x.attr] = self.refcount.get(x.attr, 0) + 1
+                elif isinstance(x, ast.alias):
+                    k = (x.asname or x.name).split(".")[-1]
+                    self.refcount[k] = self.refcount.get(k, 0) + 10      # imported elsewhere: not a local step
+                elif isinstance(x, ast.Constant) and isinstance(x.value, str) and x.value.isidentifier():
+                    self.refcount[x.value] = self.refcount.get(x.value, 0) + 10
 
     # -- resolution
-    def resolve(self, call, modname, cls):
+    def resolve(self, call, modname, cls, thin=False):
         f = call.func
+        if thin and isinstance(f, ast.Attribute) and isinstance(f.value, ast.Name) and f.value.id == "self" and cls is not None \
+                and not f.attr.startswith("__") and not _is_private(f.attr):
+            # a public method used by a thin delegating wrapper (`def append(self, v): self.store_value_with("append", v)`)
+            owner, h = self.pm.find_method(cls, f.attr)
+            if h is None or _decorators(h):
+                return None
+            for k in self.pm.subclasses(owner):
+                if k != owner and any(isinstance(x, ast.FunctionDef) and x.name == f.attr for x in self.pm.classes[k].node.body):
+                    return None
+            return h, True
         if isinstance(f, ast.Name) and _is_private(f.id):
+            h = self.module_funcs.get(modname, {}).get(f.id)
+            return (h, False) if h is not None else None
+        if isinstance(f, ast.Name) and self.refcount.get(f.id) == 1:
+            # a public module-level function referenced exactly once in the whole package, from its own module: a step
+            # split out of its only caller (the definition stays: it may be imported from outside)
             h = self.module_funcs.get(modname, {}).get(f.id)
             return (h, False) if h is not None else None
         if isinstance(f, ast.Attribute) and _is_private(f.attr) and isinstance(f.value, ast.Name) and cls is not None \
@@ -292,8 +375,8 @@ class Canonicaliser:
             self.busy.discard(id(fn))
             self.done.add(id(fn))
 
-    def prepared(self, call, modname, cls):
-        r = self.resolve(call, modname, cls)
+    def prepared(self, call, modname, cls, thin=False):
+        r = self.resolve(call, modname, cls, thin)
         if r is None:
             return None
         h, is_method = r
@@ -326,7 +409,9 @@ class Canonicaliser:
                 call, mode = s.value, "assign"
             new = None
             if call is not None:
-                p = self.prepared(call, modname, cls)
+                body_ = [b for b in fn.body if not (isinstance(b, ast.Expr) and isinstance(b.value, ast.Constant))]
+                thin = len(body_) == 1 and body_[0] is s and mode in ("expr", "return") and stmts is fn.body
+                p = self.prepared(call, modname, cls, thin)
                 if p is not None:
                     try:
                         new = self.splice(s, call, mode, p[0], p[1], fn)
@@ -336,6 +421,7 @@ class Canonicaliser:
                 out.append(s)
             else:
                 self.stats["statement_inlines"] += 1
+                self.inlined_into.setdefault(p[0].name, set()).add((f"{cls}." if cls else "") + fn.name)
                 out += new
         return out
 
@@ -360,6 +446,7 @@ class Canonicaliser:
                 def on_return(v):
                     return [ast.Expr(value=v)] if v is not None and not isinstance(v, (ast.Constant, ast.Name)) else []
             stmts, _ = _single_exit(body + [ast.Return(value=None)], on_return)
+        stmts = [_Simplify().visit(b) for b in stmts]
         return _relocate((pre + stmts) or [ast.Pass()], s)
 
     # -- expression level
@@ -386,6 +473,7 @@ class Canonicaliser:
                 if pre:
                     return node
                 me.stats["expression_inlines"] += 1
+                me.inlined_into.setdefault(h.name, set()).add((f"{cls}." if cls else "") + fn.name)
                 new = substitute(e, mapping)
                 _relocate([new], node)
                 return new
@@ -446,4 +534,5 @@ class Canonicaliser:
                         continue
                     keep.append(s)
                 container.body = keep
+        self.stats["inlined_into"] = {k: sorted(v) for k, v in self.inlined_into.items()}
         return self.stats
